@@ -21,6 +21,8 @@
 (* priority queue, Yen's candidate heap) is unexported; it is bound through these *)
 (* rows: whatever the queue does, every answer must be the fixed point.          *)
 (*                                                                              *)
+(* D* Lite histories: Path() after every action, Step(), MoveTo(n) (event "dmove":  *)
+(* Here() is n afterwards; the claimed domain of the histories is kept in gEp).     *)
 (* D* Lite worlds (events "graph" with r = "dstar-..."): the class a world claims *)
 (* to belong to is checked here (GateWorld: zero-weight edges only at the goal;   *)
 (* NoZeroCycleOffGoal: every zero-weight cycle passes through the goal).         *)
@@ -38,8 +40,11 @@ VARIABLES l,      \* cursor
           gOut,   \* gOut[u]: set of successors
           gTW,    \* gTW[s][t]: true weights (extended integers)
           gH,     \* D* Lite: the heuristic table handed to the current planner (<<>>: none)
-          gAH     \* A*: the heuristic table certified for the current graph (<<>>: none)
-tvars == <<l, gn, gIn, gOut, gTW, gH, gAH>>
+          gAH,    \* A*: the heuristic table certified for the current graph (<<>>: none)
+          gEp     \* D* Lite: what the robot did since the planner last planned (creation / UpdateWorld):
+                  \* "fresh" nothing, "moved" only MoveTo calls, "stepped" a Step, "jumped" a MoveTo to a
+                  \* node that need not lie on the plan
+tvars == <<l, gn, gIn, gOut, gTW, gH, gAH, gEp>>
 
 Ev == TraceLog[l]
 
@@ -121,6 +126,7 @@ Graph ==
     /\ (Ev.r \in DLater /\ gH # <<>>) =>
           \A v \in 1 .. Ev.n : \A x \in gIn'[v] : gH[x[1]][v] <= x[2]
     /\ gAH' = <<>>
+    /\ gEp' = "fresh"     \* a new world: a new planner, or UpdateWorld follows at once and plans again
     \* D* Lite worlds with zero-weight edges state their class and their goal
     /\ Ev.r \in {"dstar-gate0", "dstar-gate"} => GateWorld(Ev.n, gIn', Ev.goal)
     /\ Ev.r \in {"dstar-zero0", "dstar-zero"} => NoZeroCycleOffGoal(Ev.n, gIn', Ev.goal)
@@ -142,7 +148,7 @@ Sssp ==
             /\ Ev.ok = ~NegCycleFrom(Ev.s)
             /\ Ev.ok => RowMatches(Ev.s, Ev.w, Ev.p)
             /\ ~Ev.ok => \A t \in 1 .. gn : gTW[Ev.s][t] = PInf => Ev.w[t] = PInf
-    /\ UNCHANGED <<gn, gIn, gOut, gTW, gH, gAH>>
+    /\ UNCHANGED <<gn, gIn, gOut, gTW, gH, gAH, gEp>>
 
 \* point-to-point queries (DijkstraFromTo, AStar with the null heuristic): when a negative edge is
 \* reachable a panic or any answer is allowed by the documentation
@@ -152,7 +158,7 @@ Pt ==
     /\ ~NegEdgeFrom(Ev.s) => /\ ~Ev.panic
                              /\ Ev.w = gTW[Ev.s][Ev.t]
                              /\ PathOK(Ev.s, Ev.t, Ev.p, gTW[Ev.s][Ev.t])
-    /\ UNCHANGED <<gn, gIn, gOut, gTW, gH, gAH>>
+    /\ UNCHANGED <<gn, gIn, gOut, gTW, gH, gAH, gEp>>
 
 \* all-pairs: DijkstraAllPaths panics iff any negative edge; FloydWarshall / Johnson ok = FALSE iff
 \* any negative cycle; FloydWarshall's weights stay valid (and -inf on affected pairs) even then
@@ -166,7 +172,7 @@ Apsp ==
                 LET q == Ev.pp[i] e == gTW[q.s][q.t]
                 IN IF e = NInf THEN Len(q.p) = 0 /\ q.w = NInf
                    ELSE q.w = e /\ PathOKAlt(q.s, q.t, q.p, e)
-    /\ UNCHANGED <<gn, gIn, gOut, gTW, gH, gAH>>
+    /\ UNCHANGED <<gn, gIn, gOut, gTW, gH, gAH, gEp>>
 
 \* all shortest paths s -> t (AllTo / AllBetween): exactly the shortest simple paths
 All ==
@@ -179,7 +185,7 @@ All ==
                   /\ Cardinality(ps) = Len(Ev.ps)                  \* distinct
                   /\ Len(Ev.ps) >= 1
                   /\ AllPositive => Sat(Len(Ev.ps)) = CountShortest(Ev.s)[Ev.t]
-    /\ UNCHANGED <<gn, gIn, gOut, gTW, gH, gAH>>
+    /\ UNCHANGED <<gn, gIn, gOut, gTW, gH, gAH, gEp>>
 
 \* Yen: loopless, distinct, non-decreasing, first one optimal, within k and the cost bound
 \* (cost code 99: unbounded).  "Omits no cheaper path" is judged only in the enumeration bound of
@@ -200,7 +206,7 @@ Yen ==
                    /\ wt[1] = e[2]
                    /\ \A i \in 1 .. n - 1 : wt[i] <= wt[i + 1]
                    /\ Ev.c # 99 => \A i \in 1 .. n : wt[i] <= e[2] + Ev.c
-    /\ UNCHANGED <<gn, gIn, gOut, gTW, gH, gAH>>
+    /\ UNCHANGED <<gn, gIn, gOut, gTW, gH, gAH, gEp>>
 
 \* A heuristic table for A*: h[v][t] estimates the weight v -> t.  Accepted only if the
 \* specification can certify it on the current graph: zero at the target, never negative and
@@ -214,7 +220,7 @@ AHeur ==
     \* hence admissible wherever t is reachable (implied by the lines above; kept as a guard)
     /\ \A v \in 1 .. gn : \A t \in 1 .. gn : IsFin(gTW[v][t]) => Ev.h[v][t] <= gTW[v][t][2]
     /\ gAH' = Ev.h
-    /\ UNCHANGED <<gn, gIn, gOut, gTW, gH>>
+    /\ UNCHANGED <<gn, gIn, gOut, gTW, gH, gEp>>
 
 \* one row of A* answers: AStar(s, t, g, h).To(t) for every target t, heuristic kind hk:
 \* "null" (NullHeuristic), "nil" (nil heuristic, graph without HeuristicCost), "table" (the
@@ -231,7 +237,7 @@ AStarRow ==
           /\ \A t \in 1 .. gn : /\ ~Ev.panic[t]
                                  /\ Ev.w[t] = gTW[Ev.s][t]
                                  /\ PathOK(Ev.s, t, Ev.p[t], gTW[Ev.s][t])
-    /\ UNCHANGED <<gn, gIn, gOut, gTW, gH, gAH>>
+    /\ UNCHANGED <<gn, gIn, gOut, gTW, gH, gAH, gEp>>
 
 (* D* Lite (graph/path/dynamic): the recorder logs the planner's world as a "graph" event after    *)
 (* every UpdateWorld, the answer of Path() and every Step().  After every action Path() must be a    *)
@@ -247,28 +253,53 @@ DNew ==
     /\ \A a, b, c \in 1 .. gn : Ev.h[a][c] <= Ev.h[a][b] + Ev.h[b][c]
     /\ \A v \in 1 .. gn : \A x \in gIn[v] : Ev.h[x[1]][v] <= x[2]
     /\ gH' = Ev.h
+    /\ gEp' = "fresh"
     /\ UNCHANGED <<gn, gIn, gOut, gTW, gAH>>
 
+\* Domain of the recorded histories (stated here so that a recorder cannot leave it unnoticed): between
+\* two plannings the robot moves by MoveTo* Step* (no MoveTo after a Step), and after a MoveTo to a node
+\* that need not lie on the plan ("jump") nothing is asked before the next UpdateWorld.
 DPath ==
     /\ Ev.op = "dpath"
+    /\ gEp # "jumped"
     /\ ~Ev.panic
     /\ Ev.w = gTW[Ev.here][Ev.goal]
     /\ PathOK(Ev.here, Ev.goal, Ev.p, gTW[Ev.here][Ev.goal])
-    /\ UNCHANGED <<gn, gIn, gOut, gTW, gH, gAH>>
+    /\ UNCHANGED <<gn, gIn, gOut, gTW, gH, gAH, gEp>>
 
 DStep ==
     /\ Ev.op = "dstep"
+    /\ gEp # "jumped"
     /\ ~Ev.panic
     /\ LET e == gTW[Ev.from][Ev.goal]
        IN /\ Ev.ret = (Ev.from # Ev.goal /\ IsFin(e))
           /\ Ev.ret => /\ HasEdge(Ev.from, Ev.here) /\ IsFin(gTW[Ev.here][Ev.goal])
                         /\ W(Ev.from, Ev.here) + gTW[Ev.here][Ev.goal][2] = e[2]
           /\ ~Ev.ret => Ev.here = Ev.from
+    /\ gEp' = IF Ev.ret THEN "stepped" ELSE gEp
     /\ UNCHANGED <<gn, gIn, gOut, gTW, gH, gAH>>
 
-TraceInit == l = 1 /\ gn = 0 /\ gIn = <<>> /\ gOut = <<>> /\ gTW = <<>> /\ gH = <<>> /\ gAH = <<>>
+\* MoveTo(n): "moves to n in the world graph" - Here() is n afterwards and nothing else changes (the
+\* answers of Path() / Step() from n are judged by the events that follow).  kind "plan": the recorder
+\* took n from the planner's Path(); the specification requires that n lies on a shortest path from the
+\* old location to the goal (the old location itself included).  kind "jump": any node of the world.
+OnPlan(u, n, t) == /\ IsFin(gTW[u][n]) /\ IsFin(gTW[n][t]) /\ IsFin(gTW[u][t])
+                   /\ gTW[u][n][2] + gTW[n][t][2] = gTW[u][t][2]
+DMove ==
+    /\ Ev.op = "dmove"
+    /\ gEp \in {"fresh", "moved"}
+    /\ ~Ev.panic
+    /\ Ev.from \in 1 .. gn /\ Ev.to \in 1 .. gn
+    /\ Ev.from # Ev.goal          \* domain: the robot is not moved away from its goal
+    /\ Ev.here = Ev.to
+    /\ Ev.kind \in {"plan", "jump"}
+    /\ Ev.kind = "plan" => OnPlan(Ev.from, Ev.to, Ev.goal)
+    /\ gEp' = IF Ev.kind = "jump" THEN "jumped" ELSE "moved"
+    /\ UNCHANGED <<gn, gIn, gOut, gTW, gH, gAH>>
+
+TraceInit == l = 1 /\ gn = 0 /\ gIn = <<>> /\ gOut = <<>> /\ gTW = <<>> /\ gH = <<>> /\ gAH = <<>> /\ gEp = "fresh"
 TraceNext == /\ l <= Len(TraceLog)
-             /\ (Graph \/ Sssp \/ Pt \/ Apsp \/ All \/ Yen \/ AHeur \/ AStarRow \/ DNew \/ DPath \/ DStep)
+             /\ (Graph \/ Sssp \/ Pt \/ Apsp \/ All \/ Yen \/ AHeur \/ AStarRow \/ DNew \/ DPath \/ DStep \/ DMove)
              /\ l' = l + 1
 TraceSpec == TraceInit /\ [][TraceNext]_tvars
 
